@@ -14,7 +14,7 @@ KINDS = c09.KINDS
 class C12(Prop):
     id = 'C12'
     struct_inputs = False          # get_value() of the input variables is part of the property
-    rule_added = '30% of the online cases after an earlier recording on the same object and reset(). Cases as generated for C09 (incl. named assertions that nothing refers to), including the sibling-unit named assertions and bound constants. A None returned by get_value for a name after the specification was evaluated is a violation.'
+    rule_added = 'A third of the offline objects have evaluated another recording before. 30% of the online cases after an earlier recording on the same object and reset(). Cases as generated for C09 (incl. named assertions that nothing refers to), including the sibling-unit named assertions and bound constants. A None returned by get_value for a name after the specification was evaluated is a violation.'
     rule = ('modular specifications with 1..4 named sub-specifications + the named top assertion (generated as for '
             'C09) on the 5 monitor configurations; after evaluate() / after every update(), get_value(v) of every input '
             'variable must return the data supplied and get_value(n) of every name must equal what a fresh stand-alone '
@@ -118,6 +118,10 @@ class C12(Prop):
                 v.info['class:after-reset'] = 1
             if kind == 'dt_off':
                 ds = drive.dt_dataset(case['data'])
+                if n >= 2 and (n + len(sd['text'])) % 3 == 0:
+                    # the object has evaluated another recording before (the columns rotated by one sample)
+                    m.evaluate(dict((k, (list(col) if k == 'time' else list(col[1:]) + list(col[:1]))) for k, col in ds.items()))
+                    v.info['class:second-evaluation'] = 1
                 m.evaluate(ds)
                 for k in in_names:
                     g = get(k)
@@ -160,6 +164,14 @@ class C12(Prop):
                         break
             elif kind == 'ct_off':
                 args = drive.ct_args(sig, names)
+                if len(sd['text']) % 3 == 0:
+                    # the object has evaluated another recording before (same stamps, values rotated)
+                    try:
+                        m.evaluate(*[[nm, [[smp[0], vals_[(j + 1) % len(vals_)][1]] for j, smp in enumerate(vals_)]]
+                                     for nm, vals_ in drive.ct_args(sig, names)])
+                        v.info['class:second-evaluation'] = 1
+                    except Exception:
+                        m = drive.Mon(api, sd, pastify=pastify)
                 m.evaluate(*args)
                 start = max(s[0][0] for s in sig.values())
                 end = min(s[-1][0] for s in sig.values())
